@@ -128,6 +128,25 @@ def mk_eq(a, b):
     return T("eq", a, b)
 
 
+def _len_cmp_as_empty(op, a, b):
+    def is_len(t):
+        return isinstance(t, tuple) and t and t[0] == "len"
+    ca, cb = const_int(a), const_int(b)
+    if is_len(a) and cb is not None:
+        e = T("empty", a[1])
+        if (op, cb) in (("Eq", 0), ("Lt", 1), ("Le", 0)):
+            return e
+        if (op, cb) in (("Ne", 0), ("Gt", 0), ("Ge", 1)):
+            return mk_not(e)
+    if is_len(b) and ca is not None:
+        e = T("empty", b[1])
+        if (op, ca) in (("Eq", 0), ("Gt", 1), ("Ge", 0)):
+            return e
+        if (op, ca) in (("Ne", 0), ("Lt", 0), ("Le", 1)):
+            return mk_not(e)
+    return None
+
+
 def const_int(t):
     """-> python int if term is an integer/bool/char constant else None"""
     if isinstance(t, tuple) and len(t) >= 2 and t[0] == "const" and isinstance(t[1], tuple) and t[1][0] == "int":
@@ -541,6 +560,10 @@ class Evaluator:
             op = rv["op"]
             if op.endswith("WithOverflow"):
                 return T("overflow", op[:-len("WithOverflow")], a, b)
+            # len(x) compared with 0/1  ==  emptiness atom
+            em = _len_cmp_as_empty(op, a, b)
+            if em is not None:
+                return em
             if op == "Eq":
                 ca, cb = const_int(a), const_int(b)
                 if ca is not None and cb is not None:
@@ -695,13 +718,14 @@ class Walker:
         self.body = body
         self.max_paths = max_paths
 
-    def walk(self, start=0, stops=(), env=None, enter_loops=False, start_is_header=None):
+    def walk(self, start=0, stops=(), env=None, enter_loops=False, start_is_header=None, plain_headers=()):
         body = self.body
         loops = body.loops()
         if start_is_header is None:
             start_is_header = start in loops
         self.results = []
         self.stops = set(stops)
+        self.plain = set(plain_headers)
         self.start = start
         self.start_is_header = start_is_header
         env0 = dict(env or {})
@@ -747,9 +771,17 @@ class Walker:
                 if n in self.stops:
                     self._finish(events, ("stop", n), ev, blocks)
                     return
-                if n in loops and n != self.start:
+                if n in self.plain:
+                    if n in blocks[:-1]:
+                        self._finish(events, ("cycle", n), ev, blocks)
+                        return
+                elif n in loops and n != self.start:
                     if n in blocks[:-1]:
                         self._finish(events, ("backedge", n), ev, blocks)
+                        return
+                    if self.start in loops[n]:
+                        # header of a loop enclosing the start: `continue` of an outer loop
+                        self._finish(events, ("outer-backedge", n), ev, blocks)
                         return
                     # summarise the inner loop
                     events = events + [Ev("loop", n, n)]
@@ -858,6 +890,8 @@ class Walker:
                 edges = self._switch_edges(d, dty, t)
                 # constant?
                 ci = const_int(d)
+                if ci is None:
+                    ci = self._known_discr(d)
                 feasible = []
                 for (atom, val, tgt, rawvals) in edges:
                     if ci is not None:
@@ -898,6 +932,18 @@ class Walker:
                 return
             self._finish(events, ("unknown-terminator", k), ev, blocks)
             return
+
+    @staticmethod
+    def _known_discr(d):
+        """discriminant of a freshly built aggregate is a compile-time fact"""
+        if isinstance(d, tuple) and d and d[0] == "discr":
+            pl = d[1]
+            if isinstance(pl, tuple) and pl and pl[0] == "agg" and d[2] and pl[2] in d[2]:
+                idx = d[2].index(pl[2])
+                if d[3]:
+                    return int(d[3][idx])
+                return idx
+        return None
 
     def _go_after_loop(self, tgt, ev, events, known, blocks):
         self._go(tgt, ev, events, known, blocks, first=False)
